@@ -129,6 +129,13 @@ def _check_attr_use(ctx, f, attr_node, par):
             return True
         if isinstance(p, ast.Subscript) and p.value is attr_node and isinstance(p.slice, ast.Slice):
             return True
+        if isinstance(p, ast.Subscript) and p.value is attr_node and isinstance(p.slice, ast.Name):
+            # `obj.shape[s]` with `s = slice(i, j)`: still a slice of the shape
+            from . import c05 as _c05
+
+            defs = _c05._assignments_to(f, p.slice.id)
+            if defs and all(d[2] is None and isinstance(d[1], ast.Call) and isinstance(d[1].func, ast.Name) and d[1].func.id == "slice" for d in defs):
+                return True
         if isinstance(p, ast.Call) and ctx.model.is_call_to(f, p, "_array_types._check_dims"):
             return True
         ctx.bad("C17.1", f, p if p is not None else attr_node, f"`{short(p, 60)}`: the shape is used other than by len(), slicing or the per-axis check")
